@@ -36,9 +36,15 @@ def prespawn_scripts(rng, tier):
         lines.append("sframe 1 16")
         if pre_dead and not pre_dead_early:
             lines += ["cop %d despawn 0" % c, "cframe %d" % c]          # despawned before the mapping arrives
+        again = (not pre_dead) and rng.random() < 0.35
+        if again:
+            # the same mapping is registered once more (a duplicated request of the client): nothing may change
+            lines += ["deliver %d s2c 0 all" % c, "cframe %d" % c, "deliver %d c2s 0 all" % c, "sop map %d 2 0" % c]
         for _ in range(rng.randrange(0, 4)):
             lines.append("sop mutate 2 1=%d" % rng.randrange(50))
             lines.append("sframe %d 16" % rng.randrange(2))
+        if again:
+            lines.append("sframe 1 16")
         meta = dict(connected=list(range(nclients)), events=False)
         sf = len(lines)
         lines += gen_scripts.settle_lines(meta)
